@@ -31,4 +31,9 @@ CHECKS: dict[str, dict] = {
         "text": "Decides for every source IR and destination at once: each attribute store and IR-mutator call inside the clone call tree targets an object derived from a constructor/create call of that clone (the only write to the destination is the insertion of the fresh blocks); operands and successors of the copy are obtained through the value/block mappers with identity fallback; blocks, block arguments and results are registered before any operand is remapped and nested clone calls defer operands; attribute/property dictionaries are copied; an index 0 is not treated as absent; apply_to_clone applies the pass to clones only. Whole-copy equivalence is not decided (C03's oracle at run time).",
         "note": 'Trusted: constructor calls Block()/Region()/create()/clone*() return new objects; derivation follows zip/enumerate components and local lists filled only by append.',
     },
+    "C01": {
+        "technique": _T + 'link-store pairing on the CFG, field-writer ownership sweep over the whole repository, use re-homing pairing, index-class partition, attach-guard must-pass-through, local-heap shape case analysis',
+        "text": "Decides for every IR and every edit sequence built from the API: (a) in every list primitive each link store a.next=b is matched on the same paths by b.prev=a and a re-homed Use gets both link fields re-initialised; (b) only the primitives of xdsl/ir/core.py (plus Rewriter.replace_value_with_new_type) write link, parent, use-list and argument-list fields anywhere in the repository; (c) operand/successor replacement removes the old value's Use and adds the same Use to the new value and updates both tuples; (d) argument indices are shifted for exactly the suffix and retyped values keep owner and index; (e) slice rebuilds are right for each index class or reject it; (f) insertion writes links only after _attach_* and erase requires a detached node. Client code that bypasses the API, and sequences whose correctness depends on values rather than on the shape of the primitives, are not decided.",
+        "note": 'Trusted: the list representation (_next/_prev/_first/_last fields) and the set of owner classes in core.py; one named exception (TestSpecialisedConstantFoldingPass, a deliberately inlined benchmark).',
+    },
 }
